@@ -314,11 +314,15 @@ Proof. induction 1 as [|[k x] t Hx _ IH]; cbn in *; [reflexivity|]. rewrite Hx, 
 (* ------------------------------------------------------------------------------------------ *)
 (** * Relating two method records *)
 
-(** pointwise agreement; construction agrees when no Decimal is placed directly into the Row *)
-Record rel (M1 M2 : rowm) : Prop := {
-  r_new : forall a kv, no_top_dec (map snd kv) = true -> m_new M1 a (VDict kv) = m_new M2 a (VDict kv);
-  r_create_row : forall f l, no_top_dec l = true -> m_create_row M1 f (VTuple l) = m_create_row M2 f (VTuple l);
-  r_call : forall s l, no_top_dec l = true -> m_call M1 s (VTuple l) = m_call M2 s (VTuple l);
+(** pointwise agreement; the three constructing methods agree on value lists that satisfy [P]
+    ([P] = [allok]: unconditionally;  [P] = [no_top_dec]: when no Decimal is placed directly into the Row,
+    the form that was needed while sqlframe converted such Decimals to float) *)
+Definition allok (l : list pyval) : bool := true.
+
+Record rel {P : list pyval -> bool} (M1 M2 : rowm) : Prop := {
+  r_new : forall a kv, P (map snd kv) = true -> m_new M1 a (VDict kv) = m_new M2 a (VDict kv);
+  r_create_row : forall f l, P l = true -> m_create_row M1 f (VTuple l) = m_create_row M2 f (VTuple l);
+  r_call : forall s l, P l = true -> m_call M1 s (VTuple l) = m_call M2 s (VTuple l);
   r_asDict : forall s r, m_asDict M1 s r = m_asDict M2 s r;
   r_conv : forall o, m_conv M1 o = m_conv M2 o;
   r_contains : forall s i, m_contains M1 s i = m_contains M2 s i;
@@ -329,16 +333,23 @@ Record rel (M1 M2 : rowm) : Prop := {
   r_repr : forall s, m_repr M1 s = m_repr M2 s
 }.
 
-Lemma rel_bottom : rel row_bottom row_bottom.
+Notation relp P := (@rel P).
+Notation relu := (@rel allok).
+
+Lemma rel_bottom P : relp P row_bottom row_bottom.
 Proof. constructor; reflexivity. Qed.
 
-Theorem tie_rel (B1 B2 : rowm -> rowm) :
-  (forall M1 M2, rel M1 M2 -> rel (B1 M1) (B2 M2)) -> forall n, rel (tie B1 n) (tie B2 n).
+Theorem tie_rel P (B1 B2 : rowm -> rowm) :
+  (forall M1 M2, relp P M1 M2 -> relp P (B1 M1) (B2 M2)) -> forall n, relp P (tie B1 n) (tie B2 n).
 Proof. intros H n. induction n as [|k IH]; cbn; [apply rel_bottom | apply H, IH]. Qed.
 
 Section Dispatch.
+  Context {P : list pyval -> bool}.
+  Variable g : bool.
+  (** whenever the guard of [run g] lets a construction through, the precondition [P] of [rel] holds *)
+  Hypothesis GP : forall l, g && negb (no_top_dec l) = false -> P l = true.
   Variables M1 M2 : rowm.
-  Hypothesis R : rel M1 M2.
+  Hypothesis R : relp P M1 M2.
 
   Lemma attr_fields_rel v : attr_fields M1 v = attr_fields M2 v.
   Proof. unfold attr_fields. destruct (inst_fields v); [reflexivity|]. destruct v; try reflexivity. apply (r_getattr _ _ R). Qed.
@@ -360,17 +371,17 @@ Section Dispatch.
   Lemma obind_ext m1 m2 k1 k2 : m1 = m2 -> (forall v, k1 v = k2 v) -> obind m1 k1 = obind m2 k2.
   Proof. intros -> H. destruct m2; cbn; auto. Qed.
 
-  Lemma unpickle_rel n : forall v, unpickle true M1 n v = unpickle true M2 n v.
+  Lemma unpickle_rel n : forall v, unpickle g M1 n v = unpickle g M2 n v.
   Proof.
     induction n as [|k IH]; intros v; [reflexivity|].
     cbn [unpickle].
     set (each1 := fix each (l : list pyval) : out := match l with
       | [] => OVal (VList [])
-      | x :: t => obind (unpickle true M1 k x) (fun x' => obind (each t) (fun t' =>
+      | x :: t => obind (unpickle g M1 k x) (fun x' => obind (each t) (fun t' =>
                     match t' with VList t'' => OVal (VList (x' :: t'')) | _ => OExc EType end)) end).
     set (each2 := fix each (l : list pyval) : out := match l with
       | [] => OVal (VList [])
-      | x :: t => obind (unpickle true M2 k x) (fun x' => obind (each t) (fun t' =>
+      | x :: t => obind (unpickle g M2 k x) (fun x' => obind (each t) (fun t' =>
                     match t' with VList t'' => OVal (VList (x' :: t'')) | _ => OExc EType end)) end).
     assert (Heach : forall l, each1 l = each2 l).
     { induction l as [|x t IHl]; [reflexivity|]. cbn. rewrite IH. apply obind_ext; [reflexivity|].
@@ -393,8 +404,8 @@ Section Dispatch.
         rewrite IH. apply obind_ext; [reflexivity|]. intros f'.
         rewrite Heach. apply obind_ext; [reflexivity|]. intros vs'.
         destruct vs' as [| | | | | |l'| | | | | | | | |]; try reflexivity.
-        cbn [andb]. destruct (no_top_dec l') eqn:Hd; cbn [negb]; [|reflexivity].
-        rewrite (r_create_row _ _ R f' l' Hd). reflexivity.
+        destruct (g && negb (no_top_dec l')) eqn:Hg; [reflexivity|].
+        rewrite (r_create_row _ _ R f' l' (GP _ Hg)). reflexivity.
       + destruct (String.eqb name "copyreg._reconstructor"); [|reflexivity].
         destruct h2 as [| | | | | | | | | |fl0 vl0| | | | |]; try reflexivity. destruct fl0; [reflexivity|]. rewrite Heach. reflexivity.
   Qed.
@@ -403,7 +414,8 @@ End Dispatch.
 (* ------------------------------------------------------------------------------------------ *)
 (** * Lifting: related method records give equal script outcomes (guarded evaluation) *)
 
-Lemma run_rel M1 M2 (R : rel M1 M2) n : forall s, run true M1 n s = run true M2 n s.
+Lemma run_rel P g (GP : forall l, g && negb (no_top_dec l) = false -> P l = true)
+      M1 M2 (R : relp P M1 M2) n : forall s, run g M1 n s = run g M2 n s.
 Proof.
   induction s using sx_ind2; cbn [run];
     repeat match goal with
@@ -413,12 +425,12 @@ Proof.
     try reflexivity;
     repeat (apply obind_ext; [reflexivity | intro]);
     try reflexivity.
-  - (* SNew *) destruct v0; try reflexivity. cbn [andb].
-    destruct (no_top_dec (map snd kv)) eqn:Hd; cbn [negb]; [|reflexivity].
-    rewrite (r_new _ _ R _ _ Hd). reflexivity.
-  - (* SCall *) destruct v; try reflexivity. cbn [andb].
-    destruct (no_top_dec (as_list_val v0)) eqn:Hd; cbn [negb]; [|reflexivity].
-    rewrite (r_call _ _ R _ _ Hd). reflexivity.
+  - (* SNew *) destruct v0; try reflexivity.
+    destruct (g && negb (no_top_dec (map snd kv))) eqn:Hg; [reflexivity|].
+    rewrite (r_new _ _ R _ _ (GP _ Hg)). reflexivity.
+  - (* SCall *) destruct v; try reflexivity.
+    destruct (g && negb (no_top_dec (as_list_val v0))) eqn:Hg; [reflexivity|].
+    rewrite (r_call _ _ R _ _ (GP _ Hg)). reflexivity.
   - rewrite (py_getitem_rel _ _ R). reflexivity.
   - (* SGetAttr *) destruct v; try reflexivity. destruct (class_attr n0); [reflexivity|].
     destruct (String.eqb n0 "__fields__"); [rewrite (attr_fields_rel _ _ R) | rewrite (r_getattr _ _ R)]; reflexivity.
@@ -426,14 +438,26 @@ Proof.
   - rewrite (py_in_rel _ _ R). reflexivity.
   - rewrite (call_asDict_rel _ _ R). reflexivity.
   - rewrite (py_reprv_rel _ _ R). reflexivity.
-  - apply (unpickle_rel _ _ R).
+  - apply (unpickle_rel g GP _ _ R).
   - rewrite (attr_fields_rel _ _ R). reflexivity.
 Qed.
 
+Lemma GP_guarded : forall l, true && negb (no_top_dec l) = false -> no_top_dec l = true.
+Proof. intros l H. cbn in H. destruct (no_top_dec l); [reflexivity | discriminate H]. Qed.
+Lemma GP_unguarded : forall l, false && negb (no_top_dec l) = false -> allok l = true.
+Proof. reflexivity. Qed.
+
+(** unconditional agreement of the method records gives equal outcomes of plain evaluation *)
+Theorem script_equal_all (B1 B2 : rowm -> rowm) :
+  (forall M1 M2, relu M1 M2 -> relu (B1 M1) (B2 M2)) ->
+  forall n k s, run false (tie B1 n) k s = run false (tie B2 n) k s.
+Proof. intros H n k s. apply (run_rel allok false GP_unguarded), tie_rel, H. Qed.
+
+(** agreement outside "Decimal placed directly into a Row" gives equal outcomes of guarded evaluation *)
 Theorem script_equal_guarded (B1 B2 : rowm -> rowm) :
-  (forall M1 M2, rel M1 M2 -> rel (B1 M1) (B2 M2)) ->
+  (forall M1 M2, relp no_top_dec M1 M2 -> relp no_top_dec (B1 M1) (B2 M2)) ->
   forall n k s, run true (tie B1 n) k s = run true (tie B2 n) k s.
-Proof. intros H n k s. apply run_rel, tie_rel, H. Qed.
+Proof. intros H n k s. apply (run_rel no_top_dec true GP_guarded), tie_rel, H. Qed.
 
 (* ------------------------------------------------------------------------------------------ *)
 (** * Guarded evaluation that stays in the domain is plain evaluation *)
@@ -569,7 +593,7 @@ Lemma comp1_dec_id (f : pyval -> res pyval) it l :
 Proof. intros Hi Hf Hd. unfold comp1. rewrite Hi. cbn. rewrite (mapM_dec_id f l Hf Hd). reflexivity. Qed.
 
 Theorem script_equal (B1 B2 : rowm -> rowm) :
-  (forall M1 M2, rel M1 M2 -> rel (B1 M1) (B2 M2)) ->
+  (forall M1 M2, relp no_top_dec M1 M2 -> relp no_top_dec (B1 M1) (B2 M2)) ->
   forall n k s, is_ood (run true (tie B2 n) k s) = false ->
     run false (tie B1 n) k s = run false (tie B2 n) k s.
 Proof.
@@ -579,9 +603,9 @@ Proof.
 Qed.
 
 (** helpers: both method-record transformers take the Row methods as a parameter *)
-Theorem helpers_equal (B1 B2 : rowm -> rowm) (K1 K2 : rowm -> cmpm -> cmpm) :
-  (forall M1 M2, rel M1 M2 -> rel (B1 M1) (B2 M2)) ->
-  (forall M1 M2 C1 C2, rel M1 M2 -> relc C1 C2 -> relc (K1 M1 C1) (K2 M2 C2)) ->
+Theorem helpers_equal P (B1 B2 : rowm -> rowm) (K1 K2 : rowm -> cmpm -> cmpm) :
+  (forall M1 M2, relp P M1 M2 -> relp P (B1 M1) (B2 M2)) ->
+  (forall M1 M2 C1 C2, relp P M1 M2 -> relc C1 C2 -> relc (K1 M1 C1) (K2 M2 C2)) ->
   forall n m, relc (tiec (K1 (tie B1 n)) m) (tiec (K2 (tie B2 n)) m).
 Proof. intros HB HK n m. apply tiec_rel. intros C1 C2 HC. apply HK; [apply tie_rel, HB | exact HC]. Qed.
 
@@ -640,7 +664,7 @@ Ltac cong R := repeat first [ cong_leaf R | cong_struct | cong_stuck ].
 Ltac congc R RC := repeat first [ cong_leaf R | cong_leafc RC | cong_struct | cong_stuck ].
 
 Theorem script_equal_dom (B1 B2 : rowm -> rowm) :
-  (forall M1 M2, rel M1 M2 -> rel (B1 M1) (B2 M2)) ->
+  (forall M1 M2, relp no_top_dec M1 M2 -> relp no_top_dec (B1 M1) (B2 M2)) ->
   forall n k s, negb (is_ood (run true (tie B2 n) k s)) = true ->
     run false (tie B1 n) k s = run false (tie B2 n) k s.
 Proof.
